@@ -198,6 +198,9 @@ func init() {
 			if descView(ds[i]) != views[i] {
 				changed = 1
 			}
+			if ds[i].Equal(nil) {
+				changed = 2 // no descriptor is Equal to nil
+			}
 		}
 		rows = append(rows, VI(int64(changed)))
 		return VL(rows...)
